@@ -609,3 +609,45 @@ DIV_RULES["C14"] = div_c14
 
 
 DIV_RULES["C18"] = lambda w: w["op"].split(" ")[1] == "a.export" and "lr=0" in crit(w["impl"])
+
+
+def div_c06(w):
+    """block-hash batches: the model accepts only a batch that starts right above the tip (theorem
+    blockhashes_gapfree); the implementation recording a batch the model refuses records heights the relayers
+    did not vote for.  Hand-over: the delivered system transactions are pinned by btc_dequeue_spec /
+    locking_dequeue_spec, so a different hand-over is a different (invented / dropped / reordered) delivery."""
+    k = w["op"].split(" ")[1]
+    if k == "tx.hashes":
+        return crit(w["impl"]) == "ok" and crit(w["model"]) != "ok"
+    if k in ("btc.dequeue", "lock.dequeue"):
+        return any(key == "txs" for key, _, _ in differing_items(w["impl"], w["model"]))
+    return False
+
+
+DIV_RULES["C06"] = div_c06
+
+
+def div_c15(w):
+    """what an unlock files (maturity time, clipped amount) and whether the validator thereby exits are pinned by
+    unlock_queued_at_maturity / unlock_time_exact / below_threshold_exits; released-only-when-mature by mature_only /
+    immature_stay.  A state dump differing in the time queue, the matured queue or a validator's status, or a
+    hand-over differing in its unlock transactions, is an unlock released at another time / a validator not exiting"""
+    k = w["op"].split(" ")[1]
+    items = differing_items(w["impl"], w["model"])
+    if k == "dump.lock":
+        for key, it, _ in items:
+            if key in ("uq", "qunl"):
+                return True
+        recs = {}
+        for key, it, side in items:
+            f = it.split("|")
+            if key == "vals" and len(f) > 2:
+                recs.setdefault(f[0], {})[side] = f[1]
+        if any(len(v) == 2 and v["impl"] != v["model"] for v in recs.values()):
+            return True     # a validator's status differs (exiting / not exiting)
+    if k == "lock.dequeue":
+        return any(key == "txs" and it.startswith("unl|") for key, it, _ in items)
+    return False
+
+
+DIV_RULES["C15"] = div_c15
